@@ -406,6 +406,60 @@ func main() {
 	if s := os.Getenv("VERIF_SEED"); s != "" {
 		seed, _ = strconv.ParseInt(s, 10, 64)
 	}
+	if *prop == "all" || strings.Contains(*prop, ",") {
+		// screening mode (test runners): one load of the repository, every named property in turn.
+		// Helper state of the program (relocations, inlining exclusions) is shared between the
+		// properties, so a report of this mode is re-run in the normal single-property mode before
+		// it is believed; silence of this mode is silence of every property's own run on the views
+		// it computes.
+		ids := strings.Split(*prop, ",")
+		if *prop == "all" {
+			ids = ids[:0]
+			for id := range props.All {
+				ids = append(ids, id)
+			}
+			sort.Strings(ids)
+		}
+		prog, err := an.Load(*repo)
+		if err != nil {
+			fmt.Println("LOAD FAILED:", err)
+			os.Exit(1)
+		}
+		worst := 0
+		for _, id := range ids {
+			pp, ok := props.All[id]
+			if !ok {
+				continue
+			}
+			code := 0
+			func() {
+				defer func() {
+					if r := recover(); r != nil {
+						fmt.Printf("ANALYSIS PANIC in %s: %v\n", id, r)
+						code = 1
+					}
+				}()
+				st := time.Now()
+				prog.DisableInline = true
+				prog.ResetFns()
+				ctx := &an.Ctx{P: prog, Prop: id, Tier: *tier, Start: st, VerifDir: *verif, Extra: map[string]any{}}
+				pp.Run(ctx)
+				if os.Getenv("VCHECK_NOINLINE") == "" && ctx.HasNewViolations() {
+					prog.DisableInline = false
+					prog.ResetFns()
+					ctx2 := &an.Ctx{P: prog, Prop: id, Tier: *tier, Start: st, VerifDir: *verif, Extra: map[string]any{}}
+					pp.Run(ctx2)
+					ctx.MergeView(ctx2)
+				}
+				code = ctx.Finish(0, pp.Level, pp.Assumptions)
+			}()
+			if code != 0 {
+				fmt.Printf("SCREEN %s exit %d\n", id, code)
+				worst = 1
+			}
+		}
+		os.Exit(worst)
+	}
 	p, ok := props.All[*prop]
 	if !ok {
 		fmt.Fprintf(os.Stderr, "unknown property %q\n", *prop)
